@@ -168,12 +168,12 @@ type Effect struct {
 	// SliceMem: the write goes through a slice value that was not made by slicing an array the
 	// function can name (p.arr[:]); i.e. it lands in a slice's own backing array.
 	SliceMem bool
-	Pos   token.Pos
-	Fn    *ssa.Function // function containing the primitive instruction
-	Desc  string        // normalised description of the primitive instruction
-	Via   []string      // call chain from the summarised function down to Fn (callee names)
-	Instr ssa.Instruction
-	Typ   types.Type // retains: static type of the stored value
+	Pos      token.Pos
+	Fn       *ssa.Function // function containing the primitive instruction
+	Desc     string        // normalised description of the primitive instruction
+	Via      []string      // call chain from the summarised function down to Fn (callee names)
+	Instr    ssa.Instruction
+	Typ      types.Type // retains: static type of the stored value
 }
 
 func (e *Effect) via(callee string) *Effect {
